@@ -210,17 +210,17 @@ Fixpoint hex_digits (s : bytes) (acc : Z) : option Z :=
   | c :: r => match hex_digit c with Some d => hex_digits r (acc * 16 + d)%Z | None => None end
   end.
 Definition parse_hex (s : bytes) : xout Z :=
-  let '(neg, s1) := match s with
-                    | 45%N :: r => (true, r)
-                    | 43%N :: r => (false, r)
-                    | _ => (false, s)
-                    end in
-  match s1 with
+  let digits (neg : bool) (s1 : bytes) : xout Z :=
+    match s1 with
+    | [] => OErr
+    | _ :: _ => match hex_digits s1 0%Z with
+                | None => OErr
+                | Some v => if Nat.leb (length s1) 15 then OVal (if neg then Z.opp v else v) else OUnm
+                end
+    end in
+  match s with
+  | c :: r => if N.eqb c 45 then digits true r else if N.eqb c 43 then digits false r else digits false s
   | [] => OErr
-  | _ :: _ => match hex_digits s1 0%Z with
-              | None => OErr
-              | Some v => if Nat.leb (length s1) 15 then OVal (if neg then Z.opp v else v) else OUnm
-              end
   end.
 
 (* ---- arrays of scalars ---- *)
